@@ -46,12 +46,24 @@ def site(name, fault):
         return f"cb = |x|\n  {F}\n  x\n", "zz2 = [2, 1].sort(cb)"
     if name == "generator":
         return f"g = ||\n  yield 1\n  {F}\n  yield 2\n", "for x in g()\n    zz3 = x"
+    if name == "generator_wild":
+        return f"g = ||\n  yield 1\n  {F}\n  yield 2\n", "for _ in g()\n    zz3 = 1"
+    if name == "generator_wild2":
+        return f"g = ||\n  yield (1, 2)\n  {F}\n  yield (3, 4)\n", "for _, _y in g()\n    zz3 = 1"
+    if name == "generator_unpack":
+        return f"g = ||\n  {F}\n  yield 1\n", "_, zz3 = g()"
+    if name == "each_wild":
+        return f"cb = |x|\n  {F}\n  x\n", "for _ in (1, 2).each(cb)\n    zz3 = 1"
+    if name == "keep_wild":
+        return f"cb = |x|\n  {F}\n  true\n", "for _ in [1, 2].keep(cb)\n    zz3 = 1"
+    if name == "next_wild":
+        return f"o =\n  @next: ||\n    {F}\n    null\n", "for _ in o\n    zz3 = 1"
     if name == "gen_tolist":
         return f"g = ||\n  yield 1\n  {F}\n  yield 2\n", "zz2 = g().to_list()"
     if name == "next":
         return f"o =\n  @next: ||\n    {F}\n    null\n", "for x in o\n    zz3 = x"
     raise KeyError(name)
-SITES = ["direct","call1","call3","add","sub","mul","div","rem","pow","radd","less","eq","neg","index","callmeta","display","size","each","keep","fold","sortby","generator","gen_tolist","next"]
+SITES = ["direct","call1","call3","add","sub","mul","div","rem","pow","radd","less","eq","neg","index","callmeta","display","size","each","keep","fold","sortby","generator","gen_tolist","next","generator_wild","generator_wild2","generator_unpack","each_wild","keep_wild","next_wild"]
 def cases():
     for s, (fk, fv) in itertools.product(SITES, FAULTS.items()):
         for shape in ("tcf", "tc", "nested", "infn"):
